@@ -80,7 +80,17 @@ class PyEval:
         if any(f is fn for f in self._inlining) or fn.args.vararg or fn.args.kwarg:
             return None
         ev: list = []
-        argv = [self.expr(a, env, ev) for a in call.args]
+        argv = []
+        for a in call.args:
+            # an argument that is itself a resolved helper call with a single straight path: its value, its events
+            if isinstance(a, ast.Call):
+                sub = self._inline_call(a, PPath(conds=list(p.conds), events=[], env=dict(env)))
+                if sub is not None and len(sub) == 1 and sub[0][1] is not None and len(sub[0][0].conds) == len(p.conds):
+                    argv.append(sub[0][1])
+                    ev.extend(sub[0][0].events)
+                    env.update({k: v for k, v in sub[0][0].env.items() if isinstance(k, tuple)})
+                    continue
+            argv.append(self.expr(a, env, ev))
         kwv = {k.arg: self.expr(k.value, env, ev) for k in call.keywords}
         allpos = list(fn.args.posonlyargs + fn.args.args)
         params = list(allpos)
@@ -151,6 +161,8 @@ class PyEval:
             nxt: list[PPath] = []
             for p in live:
                 for q in self._stmt(st, p):
+                    if not self._feasible(q):
+                        continue
                     (nxt if q.end == ('fall',) else done).append(q)
             live = nxt
             if len(live) + len(done) > self.MAX_PATHS:
@@ -158,6 +170,18 @@ class PyEval:
             if not live:
                 break
         return done + live
+
+    @staticmethod
+    def _feasible(p: PPath) -> bool:
+        """a path that assumes one symbolic value both true and false is not a path of the program (`if x: .. elif x:`)"""
+        seen = {}
+        for c, b in p.conds:
+            try:
+                if seen.setdefault(c, b) != b:
+                    return False
+            except TypeError:          # unhashable atom
+                continue
+        return True
 
     def _fork(self, p: PPath, conds=(), events=(), end=('fall',), env=None, node=None) -> PPath:
         return PPath(p.conds + list(conds), p.events + list(events), end, dict(env if env is not None else p.env), node)
@@ -325,13 +349,13 @@ class PyEval:
         out = []
         neg: list = []
         seq_seen: list = []
-        for case in st.cases:
+        for idx, case in enumerate(st.cases):
             env = dict(env0)
             conds = list(neg)
             pat = case.pattern
             if isinstance(pat, ast.MatchClass):
                 cname = ast.unparse(pat.cls)
-                atom = ('isinstance', subj, ('name', cname))
+                atom = ('call', ('name', 'isinstance'), (subj, ('name', cname)), ())          # the atom `isinstance(subj, C)` produces
                 conds.append((atom, True))
                 names = self.match_fields(cname)
                 for i, sp in enumerate(pat.patterns):
@@ -376,7 +400,21 @@ class PyEval:
             else:
                 raise Decline(f'match pattern {type(pat).__name__}')
             if case.guard is not None:
-                raise Decline('match guard')
+                if seq_seen or isinstance(pat, ast.MatchSequence):
+                    raise Decline('match guard on a sequence pattern')
+                for gconds, truth, genv, gev in self._test(case.guard, dict(env)):
+                    q = self._fork(p, conds + gconds, ev + gev, env=genv if truth else env0)
+                    if truth:
+                        out.extend(self._block(case.body, [q]))
+                    elif st.cases[idx + 1:]:
+                        # the pattern matched but the guard failed: the later cases are tried knowing that
+                        rest = ast.copy_location(ast.Match(subject=st.subject, cases=st.cases[idx + 1:]), st)
+                        out.extend(self._match(rest, q))
+                    else:
+                        out.append(q)
+                if isinstance(pat, ast.MatchAs) and pat.pattern is None:
+                    return out              # `case _ if g:` - the failed-guard continuation above covers the rest
+                continue
             out.extend(self._block(case.body, [self._fork(p, conds, ev, env=env)]))
             if isinstance(pat, ast.MatchAs) and pat.pattern is None:
                 return out
